@@ -477,3 +477,85 @@ Proof.
       rewrite zlen_iota in P3. unfold list_len in P3. rewrite V in P3. rewrite Epc.
       unfold Phi in *. cbn [w_dst w_set_dst w_src_rl] in P3. lia.
 Qed.
+
+Theorem canon_alloc_all c fx : cfg_strict c = true -> cx_complist fx = true ->
+  forall f, A_fill c fx f /\ A_ptr c fx f /\ A_list c fx f.
+Proof.
+  intros Hc Hcl. induction f as [|f (IHf & IHp & IHl)].
+  - split; [|split]; intros ?; intros; exact I.
+  - split; [apply afill_step; assumption|]. split; [apply aptr_step; assumption|apply alist_step; assumption].
+Qed.
+
+Lemma set_root_k w root : dok (w_dst w) -> 0 <= w_src_rl w -> cp_ok (w_dst w) root ->
+  rpostk w 16 (set_root 4 w InDst root).
+Proof.
+  intros Hd Hr Hcp. unfold set_root, set_root_gen. cbv zeta.
+  destruct (bm_segs (w_dst w)) as [|s0 rest] eqn:Es; [exact I|].
+  destruct (regionInBounds (bs_data s0) 0 8) eqn:Er; cbn [negb]; [|exact I].
+  apply regionInBounds_spec in Er.
+  apply write_ptr_nocopy_k; auto. unfold region_ok, nsegs, mem, get_seg. rewrite Es.
+  cbn [nth Z.to_nat]. unfold zlen at 1. cbn [length]. split; [lia|]. split; [lia|]. change (Z.to_nat 0) with 0%nat. cbn [nth]. lia.
+Qed.
+
+Lemma new_single_tot : exists m0, new_message ASingle [] 0 = Ok m0 /\ dok m0 /\ nsegs m0 = 1 /\ tot m0 = 8.
+Proof.
+  eexists. split; [vm_compute; reflexivity|]. split; [|split; reflexivity].
+  split; [split|].
+  - repeat constructor; cbn; lia.
+  - intros _. reflexivity.
+  - intros i. unfold mem, get_seg. cbn. destruct (Z.to_nat i) as [|[|n]]; cbn; unfold maxSegmentSize; lia.
+Qed.
+
+Lemma sumN_nonneg f n : (forall i, 0 <= f i) -> 0 <= sumN f n.
+Proof. intros H. induction n; cbn [sumN]; [lia|]. specialize (H n). lia. Qed.
+Lemma seg0_le_tot m : 1 <= nsegs m -> zlen (mem m 0) <= tot m.
+Proof.
+  intros H. unfold tot, nsegs, zlen in *. destruct (length (bm_segs m)) as [|n] eqn:E; [lia|].
+  assert (forall k, lenf m 0 <= sumN (lenf m) (S k)) as G.
+  { induction k as [|k IH]; cbn [sumN]; [lia|]. cbn [sumN] in IH.
+    assert (0 <= lenf m (S k)) by (unfold lenf; apply zlen_nonneg). lia. }
+  apply G.
+Qed.
+
+(* canon_alloc: the canonical form of a hostile struct is at most
+   5 x (its own size + traversal budget consumed) + 47 bytes long, and the budget only goes down.
+   With C02_traversal the budget consumed is at most what is left of T: no amplification. *)
+Theorem canonicalize_alloc c fx fuel src rl s bs :
+  cfg_strict c = true -> cx_complist fx = true -> msg_ok src -> wf_struct src s -> p_valid s = true -> 0 <= rl ->
+  fst (canonicalize c fx fuel src rl s) = KOk bs ->
+  let rl' := snd (canonicalize c fx fuel src rl s) in
+  0 <= rl' <= rl /\ zlen bs <= 5 * (totalSize (p_size s) + (rl - rl')) + 47.
+Proof.
+  intros Hc Hcl Hm Hs V Hr. unfold canonicalize.
+  destruct new_single_tot as (m0 & -> & D0 & N0 & T0).
+  rewrite V. cbn [negb]. set (w0 := mkW m0 src rl).
+  pose proof (canonicalStructSize_safe (cx_farnull fx) (cfg_strict c) src s Hm Hs) as CS.
+  pose proof (canonicalStructSize_le (cx_farnull fx) (cfg_strict c) src s Hm Hs) as CL.
+  destruct (canonicalStructSize _ _ src s) as [sz| |]; cbn [of_res kbind res_sat] in *; try discriminate.
+  pose proof (newStruct_safe m0 0 sz D0 ltac:(lia) CS) as NS.
+  pose proof (newStruct_tot m0 0 sz) as NT.
+  destruct (newStruct m0 0 sz) as [[m1 root]| |]; cbn [lift bind of_res kbind]; try discriminate.
+  destruct NS as (D1 & G1 & Do1 & Cp1 & K1 & _). destruct (NT m1 root D0 ltac:(lia) CS eq_refl) as [T1 Ert].
+  pose proof (set_root_k (w_set_dst w0 m1) root D1 Hr Cp1) as R1.
+  destruct (set_root 4 (w_set_dst w0 m1) InDst root) as [w2| |]; cbn [of_res kbind rpostk] in *; try discriminate.
+  destruct R1 as [(D2 & G2 & S2 & Rl2) P2]. cbn [w_dst w_set_dst w_src w_src_rl w0] in *.
+  pose proof (set_root_k w2 root D2 ltac:(lia) (cp_ok_grows _ _ _ G2 Cp1)) as R2.
+  destruct (set_root 4 w2 InDst root) as [w3| |]; cbn [of_res kbind rpostk] in *; try discriminate.
+  destruct R2 as [(D3 & G3 & S3 & Rl3) P3].
+  destruct (canon_alloc_all c fx Hc Hcl fuel) as (PF & _ & _).
+  pose proof (PF w3 root s D3 ltac:(rewrite S3, S2; exact Hm) ltac:(lia)
+                ltac:(destruct Do1 as (A & B & C0); split; [exact A|split; [exact B|]];
+                      eapply region_grows; [exact G3|]; eapply region_grows; [exact G2|exact C0])
+                ltac:(rewrite S3, S2; exact Hs) V) as FC.
+  destruct (fill_canonical c fx fuel w3 root s) as [w4| | |]; cbn [kpostwk fst snd] in *; try discriminate.
+  intros E. inversion E; subst bs. clear E. destruct FC as [(D4 & G4 & S4 & Rl4) P4].
+  cbv zeta. split; [lia|].
+  assert (1 <= nsegs (w_dst w4)) as N4.
+  { destruct G4 as [Gn4 _]. destruct G3 as [Gn3 _]. destruct G2 as [Gn2 _]. destruct G1 as [Gn1 _].
+    cbn [w_dst w_set_dst] in *. lia. }
+  pose proof (seg0_le_tot _ N4) as S0. change (bs_data (get_seg (w_dst w4) 0)) with (mem (w_dst w4) 0).
+  destruct CL as (C1 & C2 & C3 & C4 & _). specialize (C4 V).
+  destruct (wf_struct_inv _ s Hs V) as (_ & Hz & _). rewrite (totalSize_wf _ Hz). unfold wf_size in Hz.
+  rewrite Ert in P4. cbn [PointerCount] in P4. rewrite padToWord_id in T1 by lia.
+  unfold Phi in *. subst w0. cbn [w_dst w_set_dst w_src_rl] in *. lia.
+Qed.
